@@ -45,6 +45,8 @@ pub enum HKind {
     DropAfter(u32),
     /// the handler panics when it is first polled; the executor (like tokio::spawn) drops the task
     Panic,
+    /// the handler returns at its first poll (nothing to wait for)
+    Immediate,
 }
 
 #[derive(Clone, Debug, PartialEq, Eq, Hash, Serialize, Deserialize)]
@@ -329,6 +331,7 @@ pub struct World {
     /// differential rerun: the n-th cancel message is replaced by a spurious wake of the reader
     suppress_cancel: Option<u32>,
     free: Cell<bool>,
+    q0_done: Cell<bool>,
     pending_advance: Cell<Option<i64>>,
     state_hashes: RefCell<Vec<u64>>,
 }
@@ -370,7 +373,7 @@ impl World {
         )));
         let gates = Rc::new(GateShared {
             log: log.clone(),
-            gates: RefCell::new(BTreeMap::new()),
+            gates: RefCell::new(cfg.reqs.iter().enumerate().filter(|(_, r)| r.hk == HKind::Immediate).map(|(i, _)| (i as u32, (true, None))).collect()),
             panics: RefCell::new(
                 cfg.reqs
                     .iter()
@@ -429,7 +432,7 @@ impl World {
             cancel_unknown_sent: false,
             dups_sent: BTreeSet::new(),
             next_dup_payload: 100,
-            finished: BTreeSet::new(),
+            finished: cfg.reqs.iter().enumerate().filter(|(_, r)| r.hk == HKind::Immediate).map(|(i, _)| i as u32).collect(),
             started_payloads: Vec::new(),
             dead: false,
             ended: false,
@@ -448,6 +451,7 @@ impl World {
             gates,
             suppress_cancel,
             free: Cell::new(false),
+            q0_done: Cell::new(false),
             pending_advance: Cell::new(None),
             state_hashes: RefCell::new(Vec::new()),
         })
@@ -519,8 +523,15 @@ impl World {
                 .all(|(_, p, d)| *d > now && !st.app_dropped.contains(p));
         // ... or ended without any response having been produced (handler never completed), so no
         // stale response can exist: reuse after cancellation / expiry / application drop is clean
+        // A handler whose body has finished but whose `execute` future is still waiting for room in
+        // the response buffer has not produced a response either, once the channel has read the
+        // cancellation: the abort covers that wait, the future can only end as aborted.
+        let cancel_consumed = cancelled
+            && !self.core.borrow().inbox.iter().any(|it| matches!(it, InItem::Item(ClientMessage::Cancel { request_id, .. }) if *request_id == id));
+        let parked_on_buffer = |p: &u32| cancel_consumed && st.handlers.iter().any(|h| h.p == Some(*p) && h.fut.is_some() && !h.ended);
         let ended_clean = earlier.iter().all(|(_, p, d)| {
-            !st.finished.contains(p) || st.app_dropped.contains(p)
+            let _ = d;
+            !st.finished.contains(p) || st.app_dropped.contains(p) || parked_on_buffer(p)
         }) && earlier
             .iter()
             .all(|(_, p, d)| cancelled || *d < now || st.app_dropped.contains(p));
@@ -1042,7 +1053,7 @@ impl World {
             all.push(Ev::Stop);
         }
         all.extend(opts);
-        if std::env::var_os("MC_SHOW_OPTIONS").is_some() {
+        if crate::mock::show_options() {
             self.log.push(Rec::S("options", format!("{all:?}")));
         }
         let k = self.ch.borrow_mut().choose("step", all.len());
@@ -1062,6 +1073,12 @@ impl World {
                 return;
             }
             if self.core.borrow().blocked() {
+                // everything has settled while the peer is not reading its responses: a quiescent
+                // point of its own (recorded once), before the peer starts reading again
+                if !self.q0_done.get() {
+                    self.q0_done.set(true);
+                    self.q_record("Q0");
+                }
                 self.apply(Ev::Drain);
                 continue;
             }
@@ -1158,6 +1175,7 @@ pub fn execute(cfg: &SCfg, prefix: &[u16], suppress_cancel: Option<u32>) -> Exec
         }
         w.free.set(true);
         w.settle();
+        w.q0_done.set(true);
         w.q_record("Q1");
         let mut ds: Vec<i64> = cfg.reqs.iter().map(|c| c.deadline_ms + 1).collect();
         ds.push(10_001);
